@@ -235,6 +235,25 @@ where
             do_op::<F>(ev, lay, "div_int_r", a, b);
         }
     }
+    // pairs solved from the divisor / multiplicand side: exact quotient / product on and beside MAX, MAX+1, MIN, MIN-1, +-2^n for
+    // hostile divisors (systematic block + random members).  Separate PRNG stream: the events above do not move.
+    for (i, (a, b)) in div_bound_block(lay).into_iter().enumerate() {
+        do_op::<F>(ev, lay, "div", a, b);
+        if i % 4 == 0 {
+            do_op::<F>(ev, lay, "div_r", a, b);
+        }
+    }
+    for (i, (a, b)) in mul_bound_block(lay).into_iter().enumerate() {
+        do_op::<F>(ev, lay, "mul", a, b);
+        if i % 4 == 0 {
+            do_op::<F>(ev, lay, "mul_r", a, b);
+        }
+    }
+    let mut rng2 = args.rng_for(lay, 101);
+    for _ in 0..args.n / 4 {
+        let (a, b) = gen_div_pair(&mut rng2, lay);
+        do_op::<F>(ev, lay, "div", a, b);
+    }
 }
 
 fn main() {
